@@ -70,8 +70,22 @@ def jobs(pid, tier, seed):
             job["long"] = 3        # every fourth history of the thorough tier is three times as long
         out.append(job)
     if pid in LIFE_PIDS:
-        # channel life cycles (mon/lifegen.py): few identifiers, returning sides, lingering connections, time windows
-        out += [{"kind": "random", "seed": seed * 1000003 + 5000000 + i, "life": 1} for i in range(N_LIFE[tier])]
+        # channel life cycles (mon/lifegen.py): few identifiers, returning sides, lingering connections, time windows;
+        # interleaved with the uniform histories so that a time budget cuts both kinds alike
+        life = [{"kind": "random", "seed": seed * 1000003 + 5000000 + i, "life": 1} for i in range(N_LIFE[tier])]
+        head = [j for j in out if j["kind"] != "random"]
+        rnd = [j for j in out if j["kind"] == "random"]
+        mixed = []
+        k = max(1, len(life) // max(1, len(rnd)))
+        li = iter(life)
+        for j in rnd:
+            mixed.append(j)
+            for _ in range(k):
+                x = next(li, None)
+                if x is not None:
+                    mixed.append(x)
+        mixed += list(li)
+        out = head + mixed
     return out
 
 
